@@ -322,6 +322,58 @@ func TestVerifC09Bounded(t *testing.T) {
 			}
 		}
 	}
+	// a link result kept from an earlier compilation (with source info, without AST) handed back
+	// as the parse result of its file - the caching pattern: same descriptors as from source, and
+	// the kept result's descriptor is not written (not even its source info under SourceInfoNone)
+	for si, set := range c09sets {
+		var names []string
+		for n := range set {
+			names = append(names, n)
+		}
+		first, err := (&Compiler{Resolver: WithStandardImports(c09sourceResolver(set)), SourceInfoMode: SourceInfoStandard}).Compile(context.Background(), names...)
+		if err != nil {
+			continue
+		}
+		for _, mode := range []SourceInfoMode{SourceInfoNone, SourceInfoStandard} {
+			want, err := c09compile(mode, c09sourceResolver(set), names)
+			if err != nil {
+				continue
+			}
+			for _, f := range first {
+				lr, ok := f.(linker.Result)
+				if !ok {
+					continue
+				}
+				n := f.Path()
+				snap := proto.Clone(lr.FileDescriptorProto()).(*descriptorpb.FileDescriptorProto)
+				res := ResolverFunc(func(name string) (SearchResult, error) {
+					if name == n {
+						return SearchResult{ParseResult: lr}, nil
+					}
+					s, ok := set[name]
+					if !ok {
+						return SearchResult{}, os.ErrNotExist
+					}
+					return SearchResult{Source: strings.NewReader(s)}, nil
+				})
+				evals++
+				nontrivial++
+				got, err := c09compile(mode, res, names)
+				if err != nil {
+					fail("compile-error", fmt.Sprintf("set %d mode %d, %s supplied as a kept link result: %v", si, mode, n, err))
+					continue
+				}
+				for _, m := range names {
+					if !c09eq(got[m], want[m]) {
+						fail("form-dependent", fmt.Sprintf("set %d mode %d, %s supplied as a kept link result: descriptor of %s differs from the all-source compilation", si, mode, n, m))
+					}
+				}
+				if !c09eq(lr.FileDescriptorProto(), snap) {
+					fail("input-modified", fmt.Sprintf("set %d mode %d: the kept link result supplied for %s was modified by the compilation", si, mode, n))
+				}
+			}
+		}
+	}
 	// concurrent compilations sharing the same supplied objects (run under the race detector
 	// in the thorough tier): results equal, objects unchanged
 	rounds := 4
@@ -404,5 +456,5 @@ func TestVerifC09Bounded(t *testing.T) {
 	for len(samples) < 3 {
 		samples = append(samples, "")
 	}
-	fmt.Printf("BOUNDED: {\"evaluations\":%d,\"distinct\":%d,\"rule\":\"3 accepted source sets (proto3 with comments/maps/oneofs/services; proto2 with custom options, extensions, groups, defaults over two files; a three-file chain with a public import and an editions file) x every assignment of {source, AST, ParseResult, Proto-with-its-source-info, ParseResult-without-AST, ParseResult-with-AST-and-standard-source-info} to the files (quick: a sixth of the 216 assignments of the three-file set) x all 8 source-info modes: every compiled FileDescriptorProto equals the all-source compilation of the same mode, and every supplied ParseResult/Proto equals its snapshot afterwards; plus %d rounds of 6 concurrent compilations from shared objects (thorough: under the race detector); distinct_nontrivial counts the distinct (set, mode, assignment) cases in which at least one file is not supplied as source\",\"exhaustive\":true,\"bound\":\"3 fixed source sets; all forms x all modes\",\"samples\":[%q,%q,%q]}\n", evals, nontrivial, rounds, samples[0], samples[1], samples[2])
+	fmt.Printf("BOUNDED: {\"evaluations\":%d,\"distinct\":%d,\"rule\":\"4 accepted source sets (proto3 with comments/maps/oneofs/services; proto2 with custom options, extensions, groups, defaults over two files; a three-file chain with a public import and an editions file; one file with custom options on every kind of element), plus every file in turn supplied as the link result kept from an earlier compilation (modes none and standard), x every assignment of {source, AST, ParseResult, Proto-with-its-source-info, ParseResult-without-AST, ParseResult-with-AST-and-standard-source-info} to the files (quick: a sixth of the 216 assignments of the three-file set) x all 8 source-info modes: every compiled FileDescriptorProto equals the all-source compilation of the same mode, and every supplied ParseResult/Proto equals its snapshot afterwards; plus %d rounds of 6 concurrent compilations from shared objects (thorough: under the race detector); distinct_nontrivial counts the distinct (set, mode, assignment) cases in which at least one file is not supplied as source\",\"exhaustive\":true,\"bound\":\"3 fixed source sets; all forms x all modes\",\"samples\":[%q,%q,%q]}\n", evals, nontrivial, rounds, samples[0], samples[1], samples[2])
 }
